@@ -65,6 +65,16 @@ CUSTOM_IMEX = dict(a_ex=[[0.5], [0.0, 0.75]], a_im=[[0.25, 0.25], [0.0, 0.5, 0.2
                    b_ex=[0.25, 0.0, 0.75], b_im=[0.25, 0.0, 0.75])
 
 
+# user-supplied schemes with NON-dyadic weights (a float32 intermediate, 1e-8 relative, is visible against the exact model):
+# ARS(2,2,2) of Ascher-Ruuth-Spiteri with gamma = 1 - 1/sqrt(2), delta = 1 - 1/(2 gamma); a low-storage list with decimals
+_G = 1.0 - 1.0 / np.sqrt(2.0); _D = 1.0 - 1.0 / (2.0 * _G)
+ARS222 = dict(a_ex=[[_G], [_D, 1.0 - _D]], a_im=[[0.0, _G], [0.0, 1.0 - _G, _G]], b_ex=[_D, 1.0 - _D, 0.0], b_im=[0.0, 1.0 - _G, _G])
+LS_NONDYADIC = dict(alphas=[0.0, 0.3, 0.7, 1.0], betas=[0.0, -0.6, -1.1], gammas=[0.3, 0.7, 0.75])
+TABLEAUX = {'imex_tableau': CUSTOM_IMEX, 'imex_ars222': ARS222}
+LS_LISTS = {'low_storage': CUSTOM_LS, 'low_storage_nd': LS_NONDYADIC}
+SCHEMES.update({'low_storage_nd': 6, 'imex_ars222': 7})
+
+
 def _seed(rng): return int(rng.integers(0, 2 ** 31))
 
 
@@ -90,6 +100,18 @@ def generate(ctx):
             yield 'toy', a
         yield 'scalar', {'scheme': name, 'dt': float(rng.integers(1, 9)) / 32, 'alpha': 0.5,
                          't0': float(rng.integers(-8, 9)) / 4, 'k': int(rng.integers(1, 6)), 'phi': [1.0, 0.0, -0.75][int(rng.integers(0, 3))]}
+    # step sizes over many decades (dyadic: exact in the model), clocks far from zero, many steps
+    decades = [(-30, 2 ** 40 + 3, 7), (20, -(2 ** 30) - 1, 5), (-12, 10 ** 6, 300), (0, -7, 3000 if quick else 6000), (-30, 0, 2000)]
+    names = list(SCHEMES)
+    for j, (e, n0_, k_) in enumerate(decades if quick else decades * 3):
+        name = names[(j * 3 + int(rng.integers(0, len(names)))) % len(names)]
+        if k_ > 1000 and name in ('crank_nicolson_rk4', 'imex_rk_sil3'): name = 'crank_nicolson_rk3'
+        dt_ = 2.0 ** e
+        ctx.count(f'scalar:dt=2^{e},n0={n0_},k={k_}')
+        yield 'scalar', {'scheme': name, 'dt': dt_, 'alpha': 0.5, 't0': float(n0_) * dt_, 'k': k_, 'phi': 1.0}
+    for j, (k_, e) in enumerate([(2500, -6), (1200, -30), (4000, 3)] if quick else [(2500, -6), (1200, -30), (4000, 3), (8000, -10), (3000, 20)]):
+        yield 'toy_long', {'scheme': [n for n in names if n != 'semi_implicit_leapfrog'][(j * 2 + 1) % (len(names) - 1)], 'k': k_, 'dt': 2.0 ** e,
+                           'n0': [0, -10 ** 6, 2 ** 33][j % 3], 'seed': _seed(rng)}
     # --- pattern / clip ---------------------------------------------------------
     pats = [dict(M=4, L=5, I=12, J=6, impl='real'), dict(M=4, L=5, I=12, J=6, impl='fast'),
             dict(M=4, L=5, I=12, J=6, impl='fast', base_shape_multiple=4), dict(M=3, L=6, I=8, J=8, impl='real'),
@@ -99,8 +121,13 @@ def generate(ctx):
                  dict(M=2, L=3, I=6, J=4, impl='real'), dict(M=5, L=4, I=14, J=8, impl='fast')]
     pats += [dict(M=2, L=3, I=256, J=4, impl='real'), dict(M=2, L=3, I=6, J=200, impl='fast'), dict(M=4, L=5, I=6, J=6, impl='fast'),
              dict(M=1, L=2, I=4, J=2, impl='real'), GRIDS['fast8'], GRIDS['fast_L6']]
+    # sizes above every threshold of the library (128 / 256 / 512 / 1024) along one axis, skinny otherwise; the stacked
+    # Fourier path is the default for 128 < M <= 256
+    pats += [dict(M=2, L=3, I=6, J=520, impl='fast'), dict(M=130, L=131, I=262, J=4, impl='fast')]
     if not quick:
-        pats += [dict(M=4, L=5, I=6, J=6, impl='real'), dict(M=3, L=8, I=10, J=12, impl='fast', base_shape_multiple=8), GRIDS['real_L6'], GRIDS['fast_stacked']]
+        pats += [dict(M=4, L=5, I=6, J=6, impl='real'), dict(M=3, L=8, I=10, J=12, impl='fast', base_shape_multiple=8), GRIDS['real_L6'], GRIDS['fast_stacked'],
+                 dict(M=2, L=3, I=1030, J=4, impl='real'), dict(M=2, L=3, I=6, J=1030, impl='real'), dict(M=260, L=261, I=522, J=4, impl='fast'),
+                 dict(M=130, L=131, I=262, J=4, impl='real'), dict(M=3, L=300, I=8, J=4, impl='fast'), dict(M=257, L=258, I=516, J=4, impl='fast', base_shape_multiple=4)]
     for g in pats:
         yield 'pattern', {'grid': g, 'seed': _seed(rng)}
     # --- unit level ---------------------------------------------------------------
@@ -150,7 +177,14 @@ def generate(ctx):
                   ('sw', 'fast', 'backward_forward_euler', ['exponential'], 0, 1, {'dtype': 'float32', 'opts': {'K': 3}}),
                   ('dry', 'real', 'low_storage', [E(cutoff=0.3, order=2)], 0, 1, {'opts': {'include_vertical_advection': False, 'K': 1}}),
                   ('time', 'fast_L6', 'imex_tableau', [D(order=2), FIX], 3, 1, {'degree': 'top'}),
-                  ('moist', 'fast_stacked', 'crank_nicolson_rk2', [], 0, 1, {'mode': 'rest', 'opts': UT})]
+                  ('moist', 'fast_stacked', 'crank_nicolson_rk2', [], 0, 1, {'mode': 'rest', 'opts': UT}),
+                  # wave 4: near-coincident / extreme level sets and reference profiles, dt over decades with clocks far from 0,
+                  # a hundred and more steps on tiny cases, python-loop / eager / repeated variants of the trajectory
+                  ('time', 'real', 'crank_nicolson_rk3', ['exponential', FIX], 10 ** 6, 1, {'opts': {'levels': 'near_equidistant', 'K': 4, 'tref': 'near_constant'}, 'dt': 2.0 ** -12}),
+                  ('moist', 'fast', 'imex_ars222', [E(cutoff=0.3, order=2)], -(2 ** 33), 1, {'opts': {'levels': 'near_ends', 'K': 3}, 'dt': 2.0 ** -30}),
+                  ('time', 'real', 'backward_forward_euler', ['exponential', 'diffusion', FIX], -150, 1, {'opts': {'levels': 'thin', 'K': 3, 'tref': 'constant'}, 'ks': [1, 60, 150], 'dt': 2.0 ** -9}),
+                  ('sw', 'real', 'low_storage_nd', [E(cutoff=0.4, order=6)], 0, 1, {'opts': {'K': 1}, 'ks': [2, 100, 200], 'dt': 2.0 ** -8, 'loop': True}),
+                  ('dry', 'fast', 'imex_rk_sil3', ['exponential'], 0, 1, {'opts': {'levels': 'float32_equidistant', 'K': 5}, 'ks': [1, 3], 'loop': True})]
     else:
         combos = []
         cut = [0.3, 0.4, 0.7]; orders = [1, 2, 6, 18]; taus = [1, 5, 10, 40]; n0s = [-10, -0.5, 0, 3]
@@ -188,13 +222,27 @@ def generate(ctx):
                     combos.append((kind, 'fast8', integ, [D(order=2), FIX], 10, -1, {'degree': 'top'}))
                 elif kind != 'cloud':
                     combos.append((kind, 'real', integ, [D(order=2)], 0, -1, {'degree': 'top', 'opts': UT}))
+    if not quick:
+        j = 0
+        for kind in ['dry', 'time', 'moist', 'cloud', 'sw']:
+            for lev in ['near_equidistant', 'float32_equidistant', 'near_ends', 'thin']:
+                for integ in (['crank_nicolson_rk4', 'imex_ars222'] if kind != 'sw' else ['low_storage_nd']):
+                    j += 1
+                    if kind == 'sw' and lev != 'thin': continue
+                    ex = {'opts': {'levels': lev, 'K': [2, 3, 5, 8][j % 4], 'tref': ['near_constant', 'constant', None][j % 3]},
+                          'dt': 2.0 ** [-30, -12, -7, -20][j % 4], 'loop': j % 5 == 0}
+                    if j % 3 == 0: ex['ks'] = [1, 40, 120]
+                    combos.append((kind, ['real', 'fast', 'fast8'][j % 3], integ, [E(cutoff=cut[j % 3], order=2)] + ([FIX] if kind not in ('dry', 'sw') else []),
+                                   [10 ** 6, -(2 ** 33), 0, -120][j % 4], 1, ex))
     for kind, impl, integ, st, n0, sgn, ex in combos:
         ctx.count(f'traj:{kind}'); ctx.count(f'integrator:{integ}'); ctx.count(f'filters:{len(st)}'); ctx.count(f'grid:{impl}')
         for k_, v_ in ex.items(): ctx.count(f'traj-extra:{k_}={v_ if not isinstance(v_, dict) else ",".join(sorted(v_))}')
         if any(isinstance(f, dict) and f.get('cutoff') for f in st): ctx.count('stack:exponential cutoff>0')
         if FIX in st: ctx.count(f'stack:fix_time n0={n0} dt{"<" if sgn < 0 else ">"}0')
-        yield 'traj', dict({'kind': kind, 'impl': impl, 'integrator': integ, 'filters': st, 'ks': [1, 2, 5], 'n0': n0,
-                            'seed': _seed(rng), 'dt': sgn * [0.02, 0.01, 0.005][int(rng.integers(0, 3))]}, **ex)
+        base = {'kind': kind, 'impl': impl, 'integrator': integ, 'filters': st, 'ks': [1, 2, 5], 'n0': n0,
+                'seed': _seed(rng), 'dt': sgn * [0.02, 0.01, 0.005][int(rng.integers(0, 3))]}
+        if 'dt' in ex: ex = dict(ex, dt=sgn * ex['dt'])
+        yield 'traj', dict(base, **ex)
 
 
 # ---------------------------------------------------------------------------
@@ -209,10 +257,11 @@ def _toy_ode(a, b, c):
 
 def _make_integrator(name, eq, dt, alpha=0.5):
     m = dyn.mods(); ti = m['ti']
-    if name == 'low_storage':
-        return ti.low_storage_runge_kutta_crank_nicolson(CUSTOM_LS['alphas'], CUSTOM_LS['betas'], CUSTOM_LS['gammas'], eq, dt)
-    if name == 'imex_tableau':
-        return ti.imex_runge_kutta(ti.ImExButcherTableau(**CUSTOM_IMEX), eq, dt)
+    if name in LS_LISTS:
+        l = LS_LISTS[name]
+        return ti.low_storage_runge_kutta_crank_nicolson(l['alphas'], l['betas'], l['gammas'], eq, dt)
+    if name in TABLEAUX:
+        return ti.imex_runge_kutta(ti.ImExButcherTableau(**TABLEAUX[name]), eq, dt)
     if name == 'semi_implicit_leapfrog':
         return ti.semi_implicit_leapfrog(eq, dt, alpha)
     return getattr(ti, name)(eq, dt)
@@ -220,10 +269,11 @@ def _make_integrator(name, eq, dt, alpha=0.5):
 
 def _extra_arrs(name):
     """arrays 6.. of the model call for the schemes with explicit coefficient lists"""
-    if name == 'low_storage':
-        return [CUSTOM_LS['alphas'], CUSTOM_LS['betas'], CUSTOM_LS['gammas']], 0
-    if name == 'imex_tableau':
-        t = CUSTOM_IMEX
+    if name in LS_LISTS:
+        l = LS_LISTS[name]
+        return [l['alphas'], l['betas'], l['gammas']], 0
+    if name in TABLEAUX:
+        t = TABLEAUX[name]
         return [sum(t['a_ex'], []), sum(t['a_im'], []), t['b_ex'], t['b_im']], len(t['b_ex'])
     return [], 0
 
@@ -260,8 +310,18 @@ def r_scalar(ctx, a):
     step = _make_integrator(name, eq, dt, a['alpha'])
     lf = name == 'semi_implicit_leapfrog'
     x = (jnp.asarray([t0]), jnp.asarray([t0 + dt * phi])) if lf else jnp.asarray([t0])
-    for _ in range(k):
-        x = step(x)
+    x_init = x
+    if k > 20:     # many steps: compiled lax.scan (time_integration.repeated)
+        x = m['jax'].jit(ti.repeated(step, k))(x_init)
+        if k <= 400:
+            y = x_init
+            for _ in range(k): y = step(y)
+            ctx.oracle('k steps under jit + lax.scan (repeated) and k eager python steps give the same scalar component',
+                       all(np.array_equal(np.asarray(p), np.asarray(q)) for p, q in zip(dyn.tree_leaves(x), dyn.tree_leaves(y))),
+                       {'scan': dyn.tree_leaves(x), 'loop': dyn.tree_leaves(y)})
+    else:
+        for _ in range(k):
+            x = step(x)
     out = np.concatenate([np.asarray(x[0]), np.asarray(x[1])]) if lf else np.asarray(x)
     extra, stages = _extra_arrs(name)
     mo = ctx.model.call(3, [SCHEMES[name], 0, k, stages], [[t0, t0 + dt * phi], [], [], [], [dt, a['alpha']], [phi]] + extra)
@@ -273,12 +333,44 @@ def r_scalar(ctx, a):
     if not lf:
         cs = ctx.model.call(4, [SCHEMES[name], 0, 0, stages], [[]] * 6 + extra)
         c = cs[0]
-        ok = (c == 1) if name != 'crank_nicolson_rk4' else abs(c - 1) <= Fraction(1, 10 ** 12)
-        ctx.exact(f'{name}: explicit consistency sum of the model coefficients is 1 (RK4: within 1e-12)', [bool(ok)], [True])
+        tolc = {'crank_nicolson_rk4': Fraction(1, 10 ** 12), 'low_storage_nd': Fraction(1, 10 ** 15), 'imex_ars222': Fraction(1, 10 ** 15)}.get(name, 0)
+        ok = abs(c - 1) <= tolc
+        ctx.exact(f'{name}: explicit consistency sum of the model coefficients is 1 (RK4: within 1e-12; non-dyadic user weights: within 1e-15)', [bool(ok)], [True])
         # the same on the implementation: one step of u' = 1
         one = _make_integrator(name, ti.ImplicitExplicitODE.from_functions(lambda u: jnp.ones_like(u), lambda u: jnp.zeros_like(u), lambda u, eta: u), dt)
         inc = float(np.asarray(one(jnp.asarray([0.0])))[0]) / dt
         ctx.corr(f'{name}: consistency sum, implementation vs model', [inc], [c], scale=1.0, tol_rel=1e-13)
+
+
+def r_toy_long(ctx, a):
+    """thousands of steps (one compiled lax.scan) on a diagonal ODE whose invariants are known in closed form; decided
+    by independent references (the exact model would need rationals with ~1e5 bits): component 0: u = 0, F = a u^2,
+    G = -c u stays exactly 0 (support); component 1: F = 0, G = -c u, u arbitrary but G(0,0)-like c = 0: constant (mean);
+    component 2: F = 1, G = 0: the clock n0*dt + k*dt"""
+    m = dyn.mods(); jax = m['jax']; jnp = m['jnp']; ti = m['ti']
+    rng = np.random.Generator(np.random.PCG64(a['seed']))
+    name = a['scheme']; k = a['k']; dt = a['dt']; n0 = a['n0']
+    av = jnp.asarray([float(rng.integers(1, 9)) / 8, 0.0, 0.0, -0.25]); bv = jnp.asarray([0.0, 0.0, 1.0, 0.0])
+    cv = jnp.asarray([float(rng.integers(1, 9)) / 4, 0.0, 0.0, 1.0 / abs(dt)])
+    eq = ti.ImplicitExplicitODE.from_functions(lambda u: av * u * u + bv, lambda u: -(cv * u), lambda u, eta: u / (1 + eta * cv))
+    filt = jnp.asarray([0.5, 1.0, 1.0, 0.75])
+    step = ti.step_with_filters(_make_integrator(name, eq, dt), [ti.runge_kutta_step_filter(lambda x: filt * x)])
+    mean0 = float(rng.integers(-8, 9)) / 8 + 0.3
+    u0 = jnp.asarray([0.0, mean0, n0 * dt, 0.0])
+    out = np.asarray(jax.jit(ti.repeated(step, k))(u0))
+    ctx.oracle('a zero entry whose explicit tendency vanishes at zero stays exactly zero after thousands of steps', out[0] == 0.0 and out[3] == 0.0, {'k': k, 'out': out})
+    ctx.oracle('a component with zero explicit and implicit tendency is unchanged after thousands of steps', out[1] == mean0, {'k': k, 'out': out[1], 'in': mean0})
+    want = (n0 + k) * dt
+    ctx.oracle_close('a component with explicit tendency phi, implicit tendency 0 advances by dt*phi per step', [out[2]], [want],
+                     scale=max(abs(want), k * abs(dt)), tol_rel=1e-11)
+    # the same number of steps split as nested repeated(repeated(.)) and as trajectory_from_step(inner_steps)
+    k1 = 50; k2 = k // k1
+    if k1 * k2 == k:
+        out2 = np.asarray(jax.jit(ti.repeated(ti.repeated(step, k1), k2))(u0))
+        fin, tr = jax.jit(ti.trajectory_from_step(step, k2, k1))(u0)
+        ctx.oracle('k steps as one scan, as nested scans and as trajectory_from_step(outer, inner) end in the same state',
+                   bool(np.array_equal(out, out2)) and bool(np.array_equal(out, np.asarray(fin))) and bool(np.array_equal(out, np.asarray(tr)[-1])),
+                   {'one': out, 'nested': out2, 'traj': np.asarray(fin)})
 
 
 def _required_zero_impl(g):
@@ -332,8 +424,10 @@ def r_pattern(ctx, a):
     rng = np.random.Generator(np.random.PCG64(a['seed']))
     x = rng.integers(-8, 9, size=(R, C)).astype(np.float64) / 4
     y = np.asarray(g.clip_wavenumbers(jnp.asarray(x)))
-    mo = ctx.model.call(5, [gd['L'], R, C], [x.ravel().tolist()])
-    ctx.exact('clip_wavenumbers vs model clip', y.ravel().tolist(), [float(v) for v in mo])
+    small = R * C <= 4096      # larger arrays: decided by the numpy oracles below (the rational model is only slower)
+    if small:
+        mo = ctx.model.call(5, [gd['L'], R, C], [x.ravel().tolist()])
+        ctx.exact('clip_wavenumbers vs model clip', y.ravel().tolist(), [float(v) for v in mo])
     ctx.oracle('clip_wavenumbers zeroes the top total wavenumber and the padded columns exactly',
                bool(np.all(y[:, gd['L'] - 1:] == 0.0)) and bool(np.all(y[:, :gd['L'] - 1] == x[:, :gd['L'] - 1])))
     Lg = gd['L']
@@ -349,6 +443,7 @@ def r_pattern(ctx, a):
     ct = g.clip_wavenumbers(tree)
     ctx.oracle('clip_wavenumbers on a pytree clips every array leaf and leaves scalars alone',
                bool(np.all(np.asarray(ct['b'][0])[..., Lg - 1:] == 0.0)) and float(ct['t']) == 0.25 and ct['b'][1] == 1.5)
+    if not small: return
     ok = ctx.model.call(2, ints, [(x * ~_required_zero(g)).ravel().tolist()])
     bad = ctx.model.call(2, ints, [x.ravel().tolist()])
     ctx.exact('pattern_ok accepts a conforming array and rejects a dense one', [int(ok[0]), int(bad[0])],
@@ -392,9 +487,24 @@ def _setup(kind, impl, seed, K=None, opts=None):
         else:
             eq = dyn.sw_equation(c, SW_DENSITIES[:nl], SW_REF_POTENTIAL[:nl], oro)
     else:
-        c = dyn.coords(g, util.uneven_boundaries(rng, K))
+        b = util.uneven_boundaries(rng, K)
+        lev = opts.get('levels')
+        if lev == 'near_equidistant':      # equal to within ~1e-7 but not equal (allclose / unique shortcuts)
+            b = np.round(np.arange(K + 1) / K, 7) + np.concatenate([[0.0], 2.0 ** -22 * rng.integers(-1, 2, size=K - 1), [0.0]]) if K > 1 else np.array([0.0, 1.0])
+            b[0] = 0.0; b[-1] = 1.0
+        elif lev == 'float32_equidistant':
+            b = np.cumsum(np.concatenate([[0], np.full(K, np.float32(1.0 / K))]).astype(np.float32)).astype(np.float64)
+            b[0] = 0.0; b[-1] = 1.0 if abs(b[-1] - 1) < 1e-8 else b[-1]
+        elif lev == 'near_ends':           # accepted by the constructor: only isclose to 0 and 1
+            b = b.copy(); b[0] = 8e-9; b[-1] = [1.0000001, 0.999998][int(rng.integers(0, 2))]
+        elif lev == 'thin':                # a 2^-30 layer next to thick ones
+            if K >= 2:
+                j = int(rng.integers(1, K)); b = np.arange(K + 1) / K; b[j] = b[j + 1] - 2.0 ** -30 if j < K else b[j]
+                if j == K: b[K - 1] = 1.0 - 2.0 ** -30
+        c = dyn.coords(g, b)
         tref = 250.0 + rng.integers(-20, 21, size=K).astype(np.float64)
         if opts.get('tref') == 'constant': tref = np.full(K, 260.0)
+        if opts.get('tref') == 'near_constant': tref = 260.0 * (1 + 1e-9 * np.arange(K))     # np.unique(T_ref).size > 1 by 1e-9
         oro = orography(0.01)
         kw = {}
         if opts.get('vertical_advection') == 'upwind': kw['vertical_advection'] = m['sc'].upwind_vertical_advection
@@ -492,9 +602,14 @@ def r_traj(ctx, a):
     else:
         if hasattr(x0, 'sim_time'): x0 = _map_named(x0, lambda n, v: jnp.asarray(n0 * dt) if n == 'sim_time' else v)
         init = x0
+    shp = jax.eval_shape(step, init)
+    ctx.oracle('the step function maps the state structure, shapes and dtypes to themselves (jax.eval_shape)',
+               jax.tree_util.tree_structure(shp) == jax.tree_util.tree_structure(init) and
+               all(p.shape == np.shape(q) and p.dtype == jnp.asarray(q).dtype for p, q in zip(dyn.tree_leaves(shp), dyn.tree_leaves(init))))
     f32 = a.get('dtype') == 'float32'
     if f32:   # single-precision states in x64 mode: only the exact-zero pattern is exact on the unchanged tree
         init = jax.tree_util.tree_map(lambda q: jnp.asarray(q, dtype=np.float32), init)
+    variants = []
     if f32:
         # the step promotes single-precision input to float64 (numpy tables), which lax.scan cannot carry: python loop
         jstep = jax.jit(step); frames = []; x = init
@@ -511,10 +626,27 @@ def r_traj(ctx, a):
                    all(np.array_equal(np.asarray(p), np.asarray(q)) for p, q in zip(dyn.tree_leaves(traj), dyn.tree_leaves(traj2))))
         ctx.oracle('trajectory finite', dyn.tree_all_finite(traj))
         get_frame = lambda k: jax.tree_util.tree_map(lambda q: np.asarray(q)[k - 1], traj)
+        if a.get('loop'):
+            # the same trajectory as a python loop over the jitted step, over the un-jitted step (first steps) and as
+            # repeated(step, k): every variant must satisfy all clauses (checked below on `variants`)
+            jstep = jax.jit(step); x = init; lo = {}
+            for i in range(1, kmax + 1):
+                x = jstep(x)
+                if i in a['ks']: lo[i] = jax.tree_util.tree_map(np.asarray, x)
+            variants = [('python loop over jit(step)', lo)]
+            kk = min(a['ks'])
+            x = init
+            for i in range(kk): x = step(x)
+            variants.append(('eager python loop', {kk: jax.tree_util.tree_map(np.asarray, x)}))
+            variants.append(('jit(repeated(step, k))', {kmax: jax.tree_util.tree_map(np.asarray, jax.jit(ti.repeated(step, kmax))(init))}))
+            ctx.count('loop==scan bit-identical:%d' % int(all(np.array_equal(p, q) for p, q in zip(dyn.tree_leaves(lo[kmax]), dyn.tree_leaves(get_frame(kmax))))))
+        else:
+            variants = []
     has_time = kind not in ('dry', 'sw')
     typ = {n: max(float(np.max(np.abs(x))), 1e-300) for n, x in _leaves(x0)}
-    for k in a['ks']:
-        frame = get_frame(k)
+    items = [('scan', k, get_frame(k)) for k in a['ks']] + [(lab, k, fr) for lab, d in variants for k, fr in d.items()]
+    for lab, k, frame in items:
+        ctx.count('frames:' + lab)
         sts = list(frame) if lf else [frame]
         for st in sts:
             _check_pattern(ctx, 'entries outside the triangular truncation and at the clipped top total wavenumber stay exactly zero', st, req)
@@ -723,6 +855,9 @@ def r_time_unit(ctx, a):
              # other forms of leaves a filter must not touch: 1-element array, integer counter, float32 scalar, nodal field
              't_1': jnp.asarray([1.375]), 'n_int': np.int64(7), 't_f32': np.float32(0.625),
              'nodal': jnp.asarray(rng.integers(-4, 5, size=tuple(g.nodal_shape)).astype(np.float64))}
+        # many leaves and nesting depth 3 (tuples / lists / dicts mixed)
+        x['many'] = [{'a%d' % i: (jnp.asarray(dyn.modal_field(rng, g, (), 3) + (i + 1) * mk), [jnp.asarray(float(i)), {'deep': jnp.asarray(dyn.modal_field(rng, g, (1,), 2) + mk)}])
+                      for i in range(4)} for _ in range(3)]
         # leading batch axes with different content per slice, ranks 2..5
         ranks = {'r2': (), 'r4': (3, 2), 'r5': (2, 1, 3)}
         for rk, lead in ranks.items():
@@ -752,6 +887,12 @@ def r_time_unit(ctx, a):
             bad = [k for k in ('t_1', 'n_int', 't_f32', 'nodal') if not same(y[k], x[k])]
             if tuple(g.nodal_shape)[-1] == g.modal_shape[-1]: bad = [k for k in bad if k != 'nodal']
             ctx.oracle('filters leave non-modal leaves (1-element, integer, float32, nodal) untouched', not bad, {'filter': nm, 'grid': gd, 'changed': bad})
+            jtu = dyn.mods()['jax'].tree_util
+            ly, lx = jtu.tree_leaves(y['many']), jtu.tree_leaves(x['many'])
+            ctx.oracle('filters on a pytree with many nested leaves: structure kept, (0,0) of every modal leaf and every scalar leaf unchanged',
+                       jtu.tree_structure(y['many']) == jtu.tree_structure(x['many']) and len(ly) == 36 and
+                       all((np.asarray(p)[..., 0, 0] == np.asarray(q)[..., 0, 0]).all() if np.ndim(q) >= 2 else float(p) == float(q) for p, q in zip(ly, lx)),
+                       {'filter': nm, 'leaves': len(ly)})
             for rk in ranks:
                 yy = np.asarray(y[rk]); xx = np.asarray(x[rk])
                 ctx.oracle('filters leave the (0,0) coefficients unchanged', bool(np.all(yy[..., 0, 0] == xx[..., 0, 0])) and yy.shape == xx.shape,
@@ -789,4 +930,4 @@ def r_fix_time_unit(ctx, a):
     ctx.oracle('maybe_fix_sim_time_roundoff returns objects without sim_time unchanged', ti.maybe_fix_sim_time_roundoff(o, dt) is o)
 
 
-RUNNERS = {'fix_time_unit': r_fix_time_unit, 'toy': r_toy, 'scalar': r_scalar, 'pattern': r_pattern, 'traj': r_traj, 'unit': r_unit, 'time_unit': r_time_unit}
+RUNNERS = {'toy_long': r_toy_long, 'fix_time_unit': r_fix_time_unit, 'toy': r_toy, 'scalar': r_scalar, 'pattern': r_pattern, 'traj': r_traj, 'unit': r_unit, 'time_unit': r_time_unit}
